@@ -100,6 +100,12 @@ CLAIMED['C17'] = dict(design='2/C17', text='The MPS parser state machine (read_h
     'injected fault (undeclared row in COLUMNS/RHS/RANGES, unknown row/bound/marker/sense keyword, unparsable number) is reported as an error.',
     note='Lexing primitives (lines, split_whitespace, trim, f64::from_str) are modelled on concrete text, not executed; gzip and byte decoding outside; models larger than 2x2 outside (property: 6x5); '
     'four defects found and repaired by fix: commits (FR ignored, objective constant only from row OBJ, UP 0 boundary, RHS for undeclared row), see known_findings.json.')
+CLAIMED['C18'] = dict(design='2/C18', text='mps::to_mps::write_mps is executed from MIR into a text buffer (format templates decoded from the MIR constants), the text is split into lines '
+    'and fed to the real parser and converter (C17 pipeline): for linear instances with 3 non-contiguous variable ids, every kind, bounds absent/finite/half-infinite/infinite/negative, '
+    '0-2 constraints of either kind incl. constant-only, either sense and symbolic coefficients (explicit zeros as solver cases), z3 proves same sense, same objective and constraint '
+    'denotations and equality kinds under the same ids and the same effective domain for every used variable; repeated ids inside one function; nonlinear objective/constraint refused naming the offender.',
+    note='f64 Display/FromStr round trip assumed (numbers travel as tokens); lexing modelled; two defects found and repaired by fix: commits (no bounds written for variables without bound; '
+    'repeated ids written as duplicate COLUMNS entries).')
 NOT_APPLICABLE = {
     'C20': 'artifact round-trip lives in ocipkg/tar/sha2/serde_json/chrono and the file system: none of it is in the crate MIR and all of it is foreign/IO under Kani; a model would verify the model, not the code',
 }
